@@ -1,6 +1,6 @@
 (* C14 - diagnostics point at the offending construct in the user's own file.
    Property theorems only; proofs live in RegionProofs.v. *)
-From HclV Require Import Base Yo Region RegionSpec RegionProofs.
+From HclV Require Import Base Yo Region RegionSpec RegionProofs RegionMultiSpec RegionMultiProofs.
 Open Scope list_scope.
 Open Scope N_scope.
 
@@ -41,3 +41,60 @@ Example C14_last_line_without_newline :
   show_region (new_from_data [10; 10] [102; 111; 111; 32; 61; 32; 49; 10; 98; 97; 114; 32; 61; 32; 50; 50] [70]) 10 18 =
   Some (one_line_region [70] 2 [98; 97; 114; 32; 61; 32; 50; 50] 0 8).
 Proof. vm_compute. reflexivity. Qed.
+
+(* ---- spans covering several lines (RegionMultiSpec.v / RegionMultiProofs.v) ----------------- *)
+
+(* a span [s, e) of the user's text covering k+1 lines: header with the user's file name and the
+   number of the line of s (counted in the user's text), then each of the k+1 lines with its number
+   and text and a caret line - first line from the column of s to the end of the text, middle
+   lines under the whole text, last line from column 0 to the column of e *)
+Theorem C14_locate_several_lines :
+  forall pre user fname s e,
+    wf_text pre -> wf_text user ->
+    (s <= e)%nat -> (e <= List.length user)%nat ->
+    ~ on_final_empty_line user e ->
+    show_region (new_from_data pre user fname) (List.length pre + s) (List.length pre + e) =
+    Some (multi_line_region fname user s e).
+Proof. exact locate_multi_line_holds. Qed.
+Print Assumptions C14_locate_several_lines.
+
+(* the remaining case (e at the very end of a text that is empty or ends with LF) *)
+Theorem C14_locate_several_lines_at_end : stmt_locate_multi_line_at_end.
+Proof. exact locate_multi_line_at_end_holds. Qed.
+Print Assumptions C14_locate_several_lines_at_end.
+
+(* the lines shown are consecutive, start with the line of s and end with the line of e *)
+Theorem C14_lines_numbered_consecutively : stmt_span_lines_numbered.
+Proof. exact span_lines_numbered_holds. Qed.
+Print Assumptions C14_lines_numbered_consecutively.
+
+(* the one-line theorem is the case k = 0 of the several-lines theorem *)
+Theorem C14_one_line_is_special_case : stmt_locate_multi_line -> stmt_locate_one_line.
+Proof. exact one_line_is_special_case_holds. Qed.
+Print Assumptions C14_one_line_is_special_case.
+
+(* observation (recorded in DESIGN.md): when a span ends just after an LF the following line is
+   echoed too, with no caret; "only lines containing a byte of the span are echoed" is false of
+   the model and of the code, and true whenever the last byte of the span is not an LF *)
+Theorem C14_only_span_lines_echoed_refuted : ~ stmt_locate_multi_line_strict.
+Proof. exact locate_multi_line_strict_refuted. Qed.
+Print Assumptions C14_only_span_lines_echoed_refuted.
+Theorem C14_only_span_lines_echoed_without_trailing_lf : stmt_locate_multi_line_strict_no_trailing_lf.
+Proof. exact locate_multi_line_strict_no_trailing_lf_holds. Qed.
+Print Assumptions C14_only_span_lines_echoed_without_trailing_lf.
+
+(* never the preamble, for any span starting and ending at or after the preamble's end (offsets
+   beyond the text are clamped): only lines of the user's text are echoed *)
+Theorem C14_never_preamble_several_lines :
+  forall pre user fname s e,
+    wf_text pre -> wf_text user ->
+    (List.length pre <= s)%nat -> (List.length pre <= e)%nat ->
+    exists out, show_region (new_from_data pre user fname) s e = Some out /\
+                shows_only_user_lines fname user out.
+Proof. exact never_preamble_multi_partial_holds. Qed.
+Print Assumptions C14_never_preamble_several_lines.
+
+(* line_number_and_bounds names the 1-based line of the user's text and where it starts *)
+Theorem C14_line_number_and_bounds : stmt_lnb_names_line.
+Proof. exact lnb_names_line_holds. Qed.
+Print Assumptions C14_line_number_and_bounds.
